@@ -155,6 +155,9 @@ def job_algebra(ctx, mode, fa, fb, fc=None, floats=False, which="pair"):
     return sym_run("algebra[%s,%s,%s,%s,%s%s]" % (which, mode, fa, fb, fc, ",float" if floats else ""),
                    make, None, body, post, case_of,
                    scenarios=lambda i: {"mixed signs": any(conc(x) < 0 for x in i["a"].values()) and any(conc(x) > 0 for x in i["a"].values())},
+                   # asked of the solver on each path, so that the witness does not depend on which model z3 happens to pick
+                   scenarios_z3=lambda i: {"mixed signs": z3.And(z3.Or([L(x) < 0 for x in i["a"].values()]),
+                                                                 z3.Or([L(x) > 0 for x in i["a"].values()]))},
                    bounds={"components": "|x| <= 1e9 (c: 1e6)", "forms": [fa, fb, fc]}, sample_every=50)
 
 
@@ -361,15 +364,19 @@ def jobs(tier):
         J.append(("job_algebra", dict(mode="gregorian", fa=fa, fb=fb, fc=fc, which="assoc")))
     for mode in modes:
         for op in ("eq", "ne", "lt", "le", "gt", "ge", "hash"):
-            for fa, fb in (("units", "units"), ("weeks", "units"), ("units", "weeks"), ("weeks", "weeks"),
-                           ("exact", "weeks"), ("mixw", "exact")):
+            pairs = (("units", "units"), ("weeks", "units"), ("units", "weeks"), ("weeks", "weeks"),
+                     ("exact", "weeks"), ("mixw", "exact"))
+            if th:
+                allf = ("units", "weeks", "exact", "mixw")
+                pairs = [(x, y) for x in allf for y in allf]
+            for fa, fb in pairs:
                 if mode != "gregorian" and op in ("eq", "ne", "hash") and not th:
                     continue
                 J.append(("job_compare", dict(mode=mode, fa=fa, fb=fb, op=op)))
         J.append(("job_compare", dict(mode=mode, fa="units", fb="units", op="lt", floats=True)))
         J.append(("job_compare", dict(mode=mode, fa="units", fb="exact", op="eq", floats=True)))
         J.append(("job_compare", dict(mode=mode, fa="units", fb="exact", op="hash", floats=True)))
-    for n in ((-4, -1, 0, 1, 2, 6) if not th else range(-4, 7)):
+    for n in ((-4, -1, 0, 1, 2, 6) if not th else range(-12, 13)):
         for form in ("units", "weeks"):
             J.append(("job_mul", dict(mode="gregorian", form=form, n=n)))
     J.append(("job_mul_symn", dict(mode="gregorian")))
@@ -384,7 +391,7 @@ INFO = {
                    "seconds), equal => equal hash keys, and < <= > >= equal the order of rough lengths in the active mode.",
     "bounds": {"quick": {"components": "|x| <= 1e9 (third operand and multiplied durations: 1e6)", "multipliers": "n in {-4,-1,0,1,2,6} with symbolic d; symbolic n (|n|<=1e6) with 5 concrete durations",
                          "modes": "ordering under gregorian and 360day"},
-               "thorough": {"modes": "all 4", "multipliers": "-4..6"}},
+               "thorough": {"modes": "all 4", "multipliers": "-12..12", "comparison operand forms": "all 16 pairs of units / weeks / exact / weeks-mixed"}},
     "outside": ["decimal (non-integral) components: the 'within float tolerance' clause is floating point and not decided here",
                 "TimeZone (excluded by the property)", "__floordiv__"],
     "assumptions": ["hash(): the shim returns the tuple the real __hash__ builds; equal tuples of equal numbers have equal CPython hashes"],
